@@ -17,6 +17,7 @@ R123     == {1, 2, 3}
 R0123    == {0, 1, 2, 3}
 NoFix    == {}
 AllFixes == {"attach", "stale", "mono"}
+Intended == {"attach", "stale", "mono", "persist"}
 
 \* ---------------------------------------------------------------- scripted block trees
 \* A script is a sequence of <<bp, parent>> or <<bp, parent, conf>> in creation order (parent = index of an earlier
@@ -33,7 +34,7 @@ MkBlocks(scr, acc) ==
            cf == IF Len(e) = 3 THEN e[3] ELSE no - PrevOwnNo(acc, Len(acc), e[1])
        IN MkBlocks(scr, Append(acc, [parent |-> e[2], no |-> no, bp |-> e[1], conf |-> cf, bad |-> "ok"]))
 Tree(scr) == MkBlocks(scr, <<>>)
-\* the same tree with block k failing (kind "exec" = inside execute(), "pre" = before execution)
+\* the same tree with block k failing inside execute()
 MarkBad(T, k, kind) == [T EXCEPT ![k].bad = kind]
 OnlyOk == {"ok"}
 OkExec == {"ok", "exec"}
@@ -80,7 +81,6 @@ T4i == Tree(<< <<0,0>>, <<1,1>>, <<2,2>>, <<0,3>>, <<1,4>>,
                <<3,3>>, <<3,6>>, <<3,7>>,
                <<2,5>>, <<0,9>>, <<1,10>>, <<2,11>> >>)
 T4iExec == {MarkBad(T4i, 6, "exec"), MarkBad(T4i, 7, "exec"), MarkBad(T4i, 8, "exec")}
-T4iPre  == {MarkBad(T4i, 6, "pre"), MarkBad(T4i, 7, "pre"), MarkBad(T4i, 8, "pre")}
 ST3  == {T3}
 ST4  == {T4}
 ST4s == {T4s}
